@@ -40,3 +40,9 @@ PROPS['C14'] = A(level='model_checking', harnesses=HM_H, budget=A(quick=150, tho
     bounds=A(quick='4 hash functions (identity, constant, low bit, x10) x 12 start states (pre-filled to 0,8,9,10,11,19,20,21,39,40 entries; filled to 12/21 and emptied) x all histories of depth 4 (5 from empty) over insert(const&/&&)/operator[]/operator[]=/remove on a 5-key alphabet of present and absent keys; get/find/const find/size/empty/iteration for every key of the universe after every transition',
              thorough='5 hash functions, depth 5 (6 from empty)'),
     assumptions=TRUST)
+
+HOLD_H = [A(src='harness/c17_holders.cpp', san='asan')]
+PROPS['C17'] = A(level='model_checking', harnesses=HOLD_H, budget=A(quick=150, thorough=900),
+    bounds=A(quick='two slots each of optional<int|Tracked|MoveOnly|CopyOnly>, expected<Err,Tracked|int>, variant<Tracked,TrackedB,int>, manual_box<Tracked>; every constructor/assignment/emplace/unwrap/map/apply in every (destination,source) state combination, histories of any length (fixpoint); tuple shapes vs std::tuple',
+             thorough='same (the spaces are closed completely already)'),
+    assumptions=TRUST)
